@@ -296,7 +296,7 @@ pub fn expected(c: &CliCase, model: &Model) -> Result<Expected, String> {
         }
         Sub::Min { m, w, preset, .. } => {
             let recs_f = if c.recs.is_empty() { "-".to_string() } else {
-                c.recs.iter().enumerate().map(|(i, r)| format!("{}:{}", hex(format!("r{}", i).as_bytes()), hex(r))).collect::<Vec<_>>().join(",")
+                c.recs.iter().enumerate().map(|(i, r)| format!("{}:{}", hex(crate::p_file::rec_id(i).as_bytes()), hex(r))).collect::<Vec<_>>().join(",")
             };
             let ans = model.query(&[format!("s2m {} {} {}", w, m, recs_f)]);
             let g: Vec<&str> = ans[0].split('|').collect();
@@ -398,11 +398,22 @@ pub fn run_case(c: &CliCase, bin: &str, work: &str, uid: &str, out: &str) -> Run
         Sub::Cov { alt: Some(a), .. } => Some(write_input(work, &format!("{}alt", uid), a, &crate::p_file::container_for(&format!("alt {}", c.req()), a))),
         _ => None,
     };
-    let args = c.cmdline(&inp, out, alt.as_deref());
-    let stdin_bytes = match &c.sub {
+    let mut args = c.cmdline(&inp, out, alt.as_deref());
+    let mut stdin_bytes = match &c.sub {
         Sub::Oligo { stdin: true, .. } => Some(std::fs::read(&inp).unwrap_or_default()),
         _ => None,
     };
+    // the k-mer CGR reads a pipe as well: every fourth of its cases gets its input on stdin (`-i -`)
+    if let Sub::Cgr { k: Some(_), .. } = &c.sub {
+        if stale_case(&format!("stdin {}", c.req())) && stale_case(&format!("stdin2 {}", c.req())) && c.container != "empty" {
+            if let Some(p) = args.iter().position(|a| a == "-i" || a == "--input") {
+                if p + 1 < args.len() {
+                    args[p + 1] = "-".to_string();
+                    stdin_bytes = Some(std::fs::read(&inp).unwrap_or_default());
+                }
+            }
+        }
+    }
     let proc = run_bin_env(bin, &args, stdin_bytes.as_deref(), 60, pool_env(&c.req()));
     let files = collect(out, c.out_is_dir());
     crate::p_file::remove_input(&inp);
@@ -567,8 +578,8 @@ pub fn gen_cli(r: &mut Rng, degenerate: bool) -> CliCase {
                 let l = 640 * r.range(1, 3) as usize + k as usize - 1;
                 recs.push(gen::clean_seq(r, l, gen::Flavor::Uniform));
             }
-            let mut container: String = if (degenerate && r.chance(1, 6)) || r.chance(1, 25) { "empty".into() } else { r.pick(&["fa", "fa", "fq", "fawrap:7", "fagz"]).to_string() };
-            if container.starts_with("fawrap") && recs.iter().any(|s| s.iter().any(|&b| b >= 0x80)) {
+            let mut container: String = if (degenerate && r.chance(1, 6)) || r.chance(1, 25) { "empty".into() } else { r.pick(&["fa", "fa", "fq", "fqwrap:9", "fawrap:7", "fagz"]).to_string() };
+            if (container.starts_with("fawrap") || container.starts_with("fqwrap")) && recs.iter().any(|s| s.iter().any(|&b| b >= 0x80)) {
                 // wrapping counts bytes: it would cut a multi-byte character in two and the file would no longer be text
                 container = "fa".into();
             }
@@ -972,6 +983,19 @@ pub fn run_c16(tier: &str, seed: u64, model: &Model, corpus_lines: Vec<String>, 
         }
     }
     run_section_cli(&mut rep, "degenerate", cases, model, bin, work, seed);
+    // more than 10000 (mostly degenerate) records whose ids are 23 ASCII bytes followed by a two-byte character: whatever is
+    // done every so many records (progress messages, flushes) must cope with such ids
+    {
+        let n = 10_050 + rng.below(40) as usize;
+        let recs: Vec<Vec<u8>> = (0..n).map(|i| match i % 5 { 0 => vec![], 1 => b"ACG".to_vec(), 2 => vec![b'N'; 9], _ => gen::clean_seq(&mut rng, 8 + i % 9, gen::Flavor::Uniform) }).collect();
+        let cases = vec![
+            CliCase { sub: Sub::Min { m: 7, w: 0, preset: "s2m".into(), threads: 2 }, recs: recs.clone(), container: "fa".into() },
+            CliCase { sub: Sub::Min { m: 7, w: 12, preset: "m2s".into(), threads: 3 }, recs, container: "fa".into() },
+        ];
+        crate::p_file::ID_WIDE.store(true, std::sync::atomic::Ordering::SeqCst);
+        run_section_cli(&mut rep, "many-records-wide-ids", cases, model, bin, work, seed);
+        crate::p_file::ID_WIDE.store(false, std::sync::atomic::Ordering::SeqCst);
+    }
     rep
 }
 
@@ -1161,6 +1185,12 @@ fn gen_history(r: &mut Rng) -> History {
             }
             if r.chance(1, 2) { stale.push(("kmers.counts".into(), b"1\t1\n2\t2\n3\t3\n4\t4\n5\t5\n6\t6\n7\t7\n8\t8\n9\t9\n".repeat(20))); }
             if r.chance(1, 2) { stale.push(("kmers.vectors".into(), b"9 9 9 9 9 9 9 9 9 9 9 9 9 9 9 9 9 9 9 9\n".repeat(40))); }
+            // staging files a run that died in its merge may leave (longer than any new table)
+            if r.chance(1, 2) {
+                for n in ["kmers.counts.tmp", "kmers.vectors.tmp", "kmers.counts.part"] {
+                    stale.push((n.into(), b"123456789\t5\n".repeat(4000)));
+                }
+            }
         } else {
             stale.push((String::new(), b"stale content of an earlier, much longer output file\n".repeat(200)));
         }
